@@ -322,6 +322,9 @@ func installSimulator() {
 		if t := currentTape(); t != nil {
 			t.noteDraw(n)
 		}
+		if s := simr.sched; s != nil {
+			s.yield("hook:noteDraw") // between the entry of a bounded draw and its read of the source
+		}
 	}
 	spg.VerifHooks.Yield = func(site string) {
 		if simr.probe.active {
